@@ -94,6 +94,10 @@ def extra(chk, verdicts):
             fail = "the result is not a well-formed OptimizeResult"
         elif s.get("nan_success"):
             fail = "a result with non-finite fun or maxcv is labelled successful"
+        elif s.get("success") and isinstance(s.get("truth"), dict) and s["truth"].get("evaluated") and \
+                s["truth"].get("true_maxcv") is not None and s["truth"]["true_maxcv"] != s["truth"]["true_maxcv"]:
+            # the values reported must stay raw: a NaN returned by a constraint at the returned point IS a NaN maxcv
+            fail = "a result is labelled successful although a constraint function returned NaN at the returned point (raw maxcv is NaN)"
         if fail:
             chk.violation({"property": "C08", "kind": "spec-fails-on-implementation", "desc": s["desc"], "inject": s["inject"], "failure": fail,
                            "result": {k: s.get(k) for k in ("status", "nfev", "nit", "success")},
